@@ -4,7 +4,7 @@ generated files; one file per grid class, compiled in parallel).  A lemma that f
 import os, re, sys, subprocess, json
 import lib, gen
 
-KINDS = ["diffusion", "central", "divergence", "gradient", "linmean", "arithmean", "linsource", "constsource", "transientM", "transientR", "bcM", "bcR", "ghosts", "upwind", "tvd", "tvdfsarg", "harmmean", "upwmean", "solveL", "solveR", "explicit"]
+KINDS = ["diffusion", "central", "divergence", "gradient", "linmean", "arithmean", "linsource", "constsource", "transientM", "transientR", "bcM", "bcR", "ghosts", "upwind", "tvd", "tvdfsarg", "harmmean", "upwmean", "solveL", "solveR", "explicit", "profile"]
 
 
 def run_suite(suite, tier, seed):
